@@ -43,6 +43,9 @@ type entryRes struct {
 	rest int
 	dump string
 	enc  []byte
+	// norm (optional): the form compared ACROSS A RE-ENCODING when the encoder by design writes less than the decoder
+	// accepts (trie nodes: a child accepted inline is written as its hash); empty: dump is compared
+	norm string
 }
 
 type entryPoint struct {
@@ -406,7 +409,9 @@ func multiTypes() []multiType {
 	nodeRes := func(n mpt.Node, rest int) entryRes {
 		var s sb
 		showNode(&s, n)
-		return entryRes{ok: true, rest: rest, dump: s.String(), enc: serEnc(&mpt.NodeObject{Node: n})}
+		// across a re-encoding: same type, same own fields, same node hash, and every child equal up to replacing an
+		// inline child by the hash node of the same hash (encodeBinaryAsChild writes the hash)
+		return entryRes{ok: true, rest: rest, dump: s.String(), enc: serEnc(&mpt.NodeObject{Node: n}), norm: nodeCommit(n)}
 	}
 	out = append(out, multiType{
 		name: "mptnode",
@@ -537,7 +542,11 @@ func checkEntries(o interface {
 			if r2.rest == -2 {
 				continue
 			}
-			if panicked || !r2.ok || r2.dump != r.dump || (r2.rest > 0) {
+			same := r2.dump == r.dump
+			if r.norm != "" && r2.norm != "" {
+				same = r2.norm == r.norm
+			}
+			if panicked || !r2.ok || !same || (r2.rest > 0) {
 				o.Fail(t.name+"-entry-reencode", k, "value accepted by %s re-encodes to bytes that %s does not decode to the same value: input %s, re-encoding %s (%s)",
 					p.name, q.name, trunc(hx.Hex(b), 160), trunc(hx.Hex(r.enc), 160), ctx)
 				return rr.ok
@@ -681,4 +690,49 @@ func entryCorpus() []corpusCase {
 		rn.o.Seen("corpus/entry/base58check")
 	})
 	return out
+}
+
+// nodeCommit: a trie node with its children replaced by what the node commits to (their hashes).
+func nodeCommit(n mpt.Node) string {
+	var s sb
+	child := func(c mpt.Node) {
+		switch t := c.(type) {
+		case nil:
+			s.tok("nil")
+		case mpt.EmptyNode:
+			s.tok("empty")
+		default:
+			h := t.Hash()
+			s.tok("child")
+			s.hex(h[:])
+		}
+	}
+	own := func(n mpt.Node) {
+		if n == nil {
+			return
+		}
+		if _, isEmpty := n.(mpt.EmptyNode); !isEmpty {
+			h := n.Hash()
+			s.tok("self")
+			s.hex(h[:])
+		}
+	}
+	switch t := n.(type) {
+	case *mpt.BranchNode:
+		s.tok("br")
+		for _, c := range t.Children {
+			child(c)
+		}
+		own(n)
+	case *mpt.ExtensionNode:
+		k, next := extParts(t)
+		s.tok("ext")
+		s.hex(k)
+		child(next)
+		own(n)
+	default:
+		showNode(&s, n) // leaf, hash, empty: nothing below
+		own(n)
+	}
+	return s.String()
 }
